@@ -246,8 +246,8 @@ impl Prop for C20 {
     fn info(&self) -> PropInfo {
         PropInfo {
             level: "exploration",
-            rule: "differential simulation: the same scenario (1-3 objects, all FEC schemes, E, B, boundary lengths, 1-3 transfers, carousel, queues, multiplex, interleave, poll schedule) is run twice at the same simulated instants, once with in-memory buffers and once with the bytes supplied through a Read+Seek stream with a seeded read-size schedule (full, 1 byte, fixed small chunks, random sizes, BufReader-like) or a real temp file (streamed or cached in RAM); the two packet sequences must be identical byte for byte (timestamps included, both clocks are simulated). 'Fault' = a schedule with short reads. Non-trivial: object packets emitted.",
-            assumptions: vec!["cenc = null (a stream source is not content-encoded by flute; the quantifier of the property does not include cenc)"],
+            rule: "differential simulation: the same scenario (1-3 objects, all FEC schemes, E, B, boundary lengths, 1-3 transfers, carousel, queues, multiplex, interleave, poll schedule) is run twice at the same simulated instants, once with in-memory buffers and once with the bytes supplied through a Read+Seek stream with a seeded read-size schedule (full, 1 byte, fixed small chunks, random sizes, BufReader-like) or a real temp file (streamed or cached in RAM); the two packet sequences must be identical byte for byte (timestamps included, both clocks are simulated). 'Faults' = schedules with short reads, EINTR-interrupted reads, streams handed over at a non-zero position, one read failing once with a non-retryable error kind. Non-trivial: object packets emitted.",
+            assumptions: vec!["a content-encoded object supplied as a stream is handed over pre-encoded by the application (compress_stream), as flute requires; compress_stream and compress_buffer produce the same bytes", "after an injected read error (fail-once schedule) equality is relaxed to: no emitted symbol differs from the buffer run's symbol with the same ids"],
             real: vec!["Sender, BlockEncoder::read_block_stream / read_block_buffer, ObjectDesc::create_from_{buffer,stream,file}"],
             stub: vec!["object source (in-memory Read+Seek with scheduled short reads)", "clock", "poll schedule"],
         }
